@@ -2,7 +2,8 @@
 # runs every registered check (quick tier by default) on the current /repo working tree
 TIER=${1:-quick}
 cd "$(dirname "$0")/.." && mkdir -p .work
-for p in $(python3 -c "import json;print(' '.join(c['property_id'] for c in json.load(open('MANIFEST.json'))['checks']))"); do
+# PROPS="C06 C07" restricts the run
+for p in ${PROPS:-$(python3 -c "import json;print(' '.join(c['property_id'] for c in json.load(open('MANIFEST.json'))['checks']))")}; do
   s=$(date +%s)
   python3 tools/check.py $p --tier $TIER > .work/all_$p.log 2>&1; rc=$?
   e=$(date +%s)
